@@ -236,22 +236,27 @@ void FsDropInService::processDropInAdd(const std::string& file) {
   buf << dropin_file.rdbuf();
   Config2::JsonConfigParser json_parser;
   std::unique_ptr<Config2::IR::Root> dropin_root;
+  // A file whose current content is not a usable drop-in must not stay active
+  // with whatever it contained before it was rewritten.
   try {
     dropin_root = json_parser.parse(buf.str());
   } catch (const std::exception& e) {
     OLOG << "Caught: " << e.what();
     OLOG << "Failed to inject drop in config into engine";
+    scheduleDropInRemove(file);
     return;
   }
   if (!dropin_root) {
     OLOG << "Could not parse drop in config=" << file;
     OLOG << "Failed to inject drop in config into engine";
+    scheduleDropInRemove(file);
     return;
   }
 
   if (!scheduleDropInAdd(file, *dropin_root)) {
     OLOG << "Could not compile drop in config";
     OLOG << "Failed to inject drop in config into engine";
+    scheduleDropInRemove(file);
   }
 }
 
